@@ -71,6 +71,7 @@ def fields_identical(a, b):
 def run(ctx):
     import copy
     import dataclasses
+    import numpy as np
     import torch
     from cayleypy import CayleyGraph, CayleyGraphDef, BfsResult
     rng = ctx.rng
@@ -84,23 +85,30 @@ def run(ctx):
     for it in range(ctx.budget(70, 600)):
         # every 5th graph has 12-100 layers, so that stored layer ids with two and more digits occur ("layer__10", "layer__37", ...)
         gd = G.gen_deep_directed(rng, 400, min_layers=12) if it % 5 == 4 else G.gen_perm_graph(rng, cap=300, multiword=rng.random() < 0.25)
+        long_states = it % 7 == 6
+        if long_states:
+            # permutations of 127..300 symbols (labels beyond one signed / unsigned byte), a few layers only
+            n_ = rng.choice([127, 128, 129, 200, 255, 256, 257, 300])
+            gd = {"kind": "perm", "gens": [[(i + 1) % n_ for i in range(n_)], [(i - 1) % n_ for i in range(n_)], [1, 0] + list(range(2, n_))], "central": list(range(n_))}
         k = len(gd["gens"])
         gnames = None if rng.random() < 0.4 else [rng.choice(names_pool) + str(i) for i in range(k)]
         name = rng.choice(["", "zoo", "lrx-5", "名前", "with space", "layer__3"])
         d = CayleyGraphDef.create([list(g) for g in gd["gens"]], generator_names=gnames, central_state=list(gd["central"]), name=name)
         seed = rng.choice([0, 0, 1, 7, rng.randrange(2**40)])
         cfgd = G.gen_config(rng, gd)
+        if long_states:
+            cfgd["bit_encoding_width"] = rng.choice(["auto", None])
         cfgd["random_seed"] = seed
         graph = CayleyGraph(d, device="cpu", **cfgd)
-        layers, dist = G.ref_bfs(gd, [gd["central"]])
+        layers, dist = (G.ref_bfs(gd, [gd["central"]]) if not long_states else ([{tuple(gd["central"])}] * 4, {}))
         kw = {}
         if rng.random() < 0.7:
             kw["return_all_hashes"] = True
         if rng.random() < 0.3:
             kw["return_all_edges"] = True
         kw["max_layer_size_to_store"] = rng.choice([None, 1, 2, 1000])
-        if rng.random() < 0.4:
-            kw["max_diameter"] = rng.randint(1, len(layers) + 1)
+        if rng.random() < 0.4 or long_states:
+            kw["max_diameter"] = rng.randint(1, len(layers) + 1) if not long_states else rng.randint(1, 3)
         if rng.random() < 0.2:
             kw["max_layer_size_to_explore"] = rng.choice([1, 2, 5])
         res = graph.bfs(**kw)
@@ -169,7 +177,12 @@ def run(ctx):
         if kw.get("return_all_hashes"):
             fresh = CayleyGraph(loaded.graph, device="cpu", **cfgd)
             D = len(res.layer_sizes) - 1
-            for q in P.query_states(rng, gd, layers, dist, D, 3):
+            if long_states:
+                # queries: states of the stored layers themselves (the orbit is far too large to enumerate)
+                qs_ = [tuple(int(v) for v in row) for k_ in sorted(res.layers) for row in np.asarray(res.layers[k_]).reshape((len(res.layers[k_]), -1)).tolist()[:2]][:3]
+            else:
+                qs_ = P.query_states(rng, gd, layers, dist, D, 3)
+            for q in qs_:
                 a, _ = P.res_path_lit(lambda: graph.find_path_to(list(q), res))
                 b, _ = P.res_path_lit(lambda: fresh.find_path_to(list(q), loaded))
                 if a != b:
